@@ -42,6 +42,8 @@ type APIOp struct {
 	Arg     int
 	N       int
 	DelayUs int
+	// CancelUs > 0 (Start ops): the context handed to Start is cancelled that many µs after the call was issued.
+	CancelUs int `json:",omitempty"`
 }
 
 type APIHistory struct {
@@ -66,6 +68,8 @@ type startCall struct {
 	err      error
 	racing   bool
 	known    bool // the plan had been submitted when Start was issued
+	// ctxCancelled: the context handed to this Start was cancelled while (or before) it ran: it may legitimately fail
+	ctxCancelled bool
 }
 
 // InvalidPlan builds the ill-formed plan of the given kind (nil for kind 0).
@@ -161,13 +165,22 @@ func RunAPI(h *APIHistory, res *vprop.Result) {
 		}
 		return uuid.MustParse("01890000-0000-7000-8000-00000000dead"), false
 	}
-	doStart := func(pi int, racing bool) {
+	doStart := func(pi int, racing bool, cancelUs int) {
 		id, known := idOf(pi)
-		sc := &startCall{plan: pi, racing: racing, known: known}
+		sc := &startCall{plan: pi, racing: racing, known: known, ctxCancelled: cancelUs > 0}
 		l.mu.Lock()
 		sc.issuedAt = len(l.events)
 		l.mu.Unlock()
-		guard("Start", func() { sc.err = ws.Start(ctx, id) })
+		// cancelUs > 0: the context handed to Start ends that many µs after the call was issued — possibly in the middle
+		// of Start (e.g. while its storage read returns late). Whatever Start then reports must be true: an error means
+		// the plan does not execute, nil means it executes exactly once ("Cancelling the Context will not Stop execution").
+		sctx, cancelStart := stdctx.WithCancel(ctx)
+		defer cancelStart() // after Start has returned: "Cancelling the Context will not Stop execution"
+		if cancelUs > 0 {
+			tm := time.AfterFunc(time.Duration(cancelUs)*time.Microsecond, cancelStart)
+			defer tm.Stop()
+		}
+		guard("Start", func() { sc.err = ws.Start(sctx, id) })
 		l.api(EvStartRet, pi, sc.err)
 		l.mu.Lock()
 		sc.doneAt = len(l.events) - 1
@@ -217,7 +230,7 @@ func RunAPI(h *APIHistory, res *vprop.Result) {
 				}
 			}
 			if op.Kind == OpStart {
-				doStart(op.Plan, false)
+				doStart(op.Plan, false, op.CancelUs)
 				continue
 			}
 			n := op.N
@@ -232,7 +245,7 @@ func RunAPI(h *APIHistory, res *vprop.Result) {
 					if i > 0 && op.DelayUs > 0 {
 						time.Sleep(time.Duration(op.DelayUs) * time.Microsecond)
 					}
-					doStart(op.Plan, true)
+					doStart(op.Plan, true, op.CancelUs)
 				}(i)
 			}
 			rg.Wait()
@@ -378,7 +391,30 @@ func RunAPI(h *APIHistory, res *vprop.Result) {
 	}
 	if stalled {
 		res.Label("stalled")
-		res.Skip = true // liveness of a started plan is C04's clause, not C12's
+		// liveness of an EXECUTING plan is C04's clause, not C12's; but a Start that returned nil for a plan of which
+		// nothing was ever invoked although the harness waited for the whole stall window is C12's: "concurrent Start
+		// calls for the same plan result in exactly one execution" — not in none
+		ixs := BuildIndex(&RunResult{Sc: sc, Events: evs})
+		for pi := range h.Plans {
+			accepted, invoked := 0, false
+			mu.Lock()
+			for _, s := range starts {
+				if s.plan == pi && s.known && s.err == nil {
+					accepted++
+				}
+			}
+			mu.Unlock()
+			for _, inv := range ixs.All {
+				if inv.Ref.Plan == pi {
+					invoked = true
+				}
+			}
+			if accepted > 0 && !invoked && !(h.Stale && h.MaxSubmitMs > 0) {
+				res.Fail("C12/started-but-not-executed", "plan p%d: %d Start call(s) returned nil but nothing was ever invoked (no progress for the stall window, nothing pending)\n%s", pi, accepted, FormatEvents(evs, 40))
+				return
+			}
+		}
+		res.Skip = true
 		return
 	}
 
@@ -437,8 +473,14 @@ func RunAPI(h *APIHistory, res *vprop.Result) {
 			res.Fail("C12/start-accepted-twice", "plan p%d: %d Start calls returned nil\n%s", pi, okCount, FormatEvents(evs, 40))
 			return
 		}
-		if len(mine) > 0 && okCount == 0 && h.MaxSubmitMs == 0 {
-			res.Fail("C12/no-start-accepted", "plan p%d: %d Start calls on a fresh, valid plan and none was accepted (first error: %v)", pi, len(mine), mine[0].err)
+		var plain []*startCall // Starts whose context stayed alive: one of them must be accepted
+		for _, s := range mine {
+			if !s.ctxCancelled {
+				plain = append(plain, s)
+			}
+		}
+		if len(plain) > 0 && okCount == 0 && h.MaxSubmitMs == 0 {
+			res.Fail("C12/no-start-accepted", "plan p%d: %d Start calls (with a live context) on a fresh, valid plan and none was accepted (first error: %v)", pi, len(plain), plain[0].err)
 			return
 		}
 		if okCount == 1 && !invoked {
